@@ -264,3 +264,15 @@ CLAIMED['C27'] = dict(
     note="Enumeration, not symbolic reasoning: nodes are hashed by the implementation. Trusted: the 100-line oracle in vf/props/c27.py.",
     technique="bounded exhaustive exploration of adjacency matrices enumerated by the SMT solver (no symbolic arithmetic survives hashing)",
     design_ref="DESIGN.md §3 C27")
+
+CLAIMED['C30'] = dict(
+    level='other', engine='symx (solver-driven enumeration)',
+    text="Bounded exhaustive exploration, driven by the solver: from 48 initial AsmCFGs built through the API (3 blocks, 8 constraint "
+         "sets incl. self-loops, duplicate constraints and a never-present destination) every sequence of 2 (quick) / 3 (thorough) "
+         "operations among add_block, del_block, add_edge, del_edge, rewrite-bto+rebuild_edges, merge, rebuild_edges, copy is "
+         "executed on the real AsmCFG; after every operation edges(), edges2constraint, pendings and successor/predecessor lists "
+         "are compared with the invariant recomputed from the blocks' bto sets.",
+    note="Enumeration, not symbolic reasoning: loc keys are hashed by the implementation. Edges added by hand to block-less nodes and "
+         "conflicting-kind duplicates are outside the claim.",
+    technique="bounded exhaustive exploration of operation histories enumerated by the SMT solver, invariant checked after each step",
+    design_ref="DESIGN.md §3 C30")
